@@ -11,6 +11,8 @@ Local Open Scope list_scope.
     the keys listed as known findings of C05 in KNOWN_FINDINGS.txt *)
 Definition checked_accesses : list access := checked known_keys accesses.
 Definition checked_lock_order : list order_pair := checked_order known_keys lock_order.
+(** fields without a write site anywhere in the table (known findings included) *)
+Definition ro (f : field) : bool := never_written accesses f.
 Definition ranks : list (string * nat) := computed_ranks checked_lock_order.
 
 Definition bad_access_report : list (string * string) :=
@@ -18,7 +20,7 @@ Definition bad_access_report : list (string * string) :=
 Definition bad_order_report : list (string * string) :=
   map (fun o => (order_key o, o_pos o)) (bad_orders (rank_of ranks) known_keys lock_order).
 
-Lemma accesses_guarded : forallb access_ok checked_accesses = true.
+Lemma accesses_guarded : forallb (access_ok_ro ro) checked_accesses = true.
 Proof. vm_compute. reflexivity. Qed.
 
 Lemma order_ranked : forallb (order_ok (rank_of ranks)) checked_lock_order = true.
@@ -28,7 +30,7 @@ Lemma nothing_unresolved : unresolved = [].
 Proof. reflexivity. Qed.
 
 Lemma discipline_holds :
-  forallb access_ok checked_accesses = true /\
+  forallb (access_ok_ro ro) checked_accesses = true /\
   forallb (order_ok (rank_of ranks)) checked_lock_order = true /\
   unresolved = [].
 Proof. exact (conj accesses_guarded (conj order_ranked nothing_unresolved)). Qed.
@@ -36,7 +38,7 @@ Proof. exact (conj accesses_guarded (conj order_ranked nothing_unresolved)). Qed
 Lemma no_race : forall progs,
   Forall (fun p => conforms checked_accesses [] p = true) progs ->
   forall s, reachable (init progs) s -> ~ race s.
-Proof. exact (table_race_free checked_accesses accesses_guarded). Qed.
+Proof. exact (table_race_free_ro ro checked_accesses accesses_guarded). Qed.
 
 Lemma no_deadlock : forall progs,
   Forall (fun p => conforms_order checked_lock_order [] p = true) progs ->
@@ -50,4 +52,10 @@ Example conforming_thread :
     [Acq "home.homeContext.controlLock" W; Acq "client.Storage.mu" W;
      Wr "client.index.nameToUID"; Rel "client.Storage.mu" W;
      Rel "home.homeContext.controlLock" W] = true.
+Proof. vm_compute. reflexivity. Qed.
+
+Example conforming_order_thread :
+  conforms_order checked_lock_order []
+    [Acq "home.homeContext.controlLock" W; Acq "client.Storage.mu" W;
+     Rel "client.Storage.mu" W; Rel "home.homeContext.controlLock" W] = true.
 Proof. vm_compute. reflexivity. Qed.
